@@ -20,7 +20,9 @@ VARIANTS = [(), ("typing.root",), ("typing.310",), ("pydantic_dataclasses",), ("
 RULE = (
     "Programs x configurations: Hypothesis grammar schemas (as C03, incl. services with every streaming cardinality, "
     "optional fields, maps, oneofs, cross-package references) x the 3 x 2 option combinations {typing.direct, "
-    "typing.root, typing.310} x {dataclasses, pydantic_dataclasses}; plus fixed all-cardinality service schemas. "
+    "typing.root, typing.310} x {dataclasses, pydantic_dataclasses}; plus a fixed all-cardinality service schema and "
+    "a fixed family of packages that each use exactly ONE typing construct (only a map, only an optional, only a "
+    "repeated, only a wrapper, only a oneof, only a streaming service, ...). "
     "Oracle (metamorphic across configurations + protoc's descriptors): every variant compiles and imports; each "
     "variant passes the C03 structural validation against the FileDescriptorSet and has the same marker-indexed "
     "description (classes, field numbers, proto types, groups, enum numbers, stub methods, routes, cardinalities, "
@@ -285,8 +287,31 @@ def targets(ctx):
 
     SHADOW_PROTO = {"p.proto": 'syntax = "proto3";\npackage p;\nimport "google/protobuf/timestamp.proto";\nimport "google/protobuf/duration.proto";\nmessage Shadow { google.protobuf.Timestamp datetime = 1; google.protobuf.Timestamp other = 2; optional google.protobuf.Duration timedelta = 3; repeated int32 list = 4; repeated int32 more = 5; map<int32, int32> dict = 6; map<int32, int32> d2 = 7; int32 mk20001 = 20001; }\n'}
 
+    # one package per typing construct, each package using ONLY that construct (what a configuration must import /
+    # quote is decided per package, so a construct must work when it is the only one present)
+    def _pkg(name, body, imports=""):
+        return f'syntax = "proto3";\npackage {name};\n{imports}{body}'
+
+    SINGLE_CONSTRUCT = {
+        "only_map.proto": _pkg("only_map", "message M { map<string, int32> m = 1; int32 mk20001 = 20001; }\n"),
+        "only_optional.proto": _pkg("only_optional", "message M { optional int32 o = 1; int32 mk20002 = 20002; }\n"),
+        "only_repeated.proto": _pkg("only_repeated", "message M { repeated string r = 1; int32 mk20003 = 20003; }\n"),
+        "only_wrapper.proto": _pkg("only_wrapper", "message M { google.protobuf.Int32Value w = 1; int32 mk20004 = 20004; }\n", 'import "google/protobuf/wrappers.proto";\n'),
+        "only_oneof.proto": _pkg("only_oneof", "message M { oneof o { int32 a = 1; string b = 2; } int32 mk20005 = 20005; }\n"),
+        "only_plain.proto": _pkg("only_plain", "message M { int32 a = 1; int32 mk20006 = 20006; }\nenum E { E_ZERO = 0; E_MK = 20007; }\n"),
+        "only_msgref.proto": _pkg("only_msgref", "message M { M self_ref = 1; only_plain.M other = 2; only_plain.E e = 3; int32 mk20008 = 20008; }\n", 'import "only_plain.proto";\n'),
+        "only_timestamp.proto": _pkg("only_timestamp", "message M { google.protobuf.Timestamp t = 1; google.protobuf.Duration d = 2; int32 mk20009 = 20009; }\n",
+                                     'import "google/protobuf/timestamp.proto";\nimport "google/protobuf/duration.proto";\n'),
+        "only_unary_service.proto": _pkg("only_unary_service", "message M { int32 a = 1; int32 mk20010 = 20010; }\nservice S { rpc U (M) returns (M); }\n"),
+        "only_stream_service.proto": _pkg("only_stream_service", "message M { int32 a = 1; int32 mk20011 = 20011; }\nservice S { rpc SS (stream M) returns (stream M); rpc US (M) returns (stream M); rpc SU (stream M) returns (M); }\n"),
+        "only_map_of_msg.proto": _pkg("only_map_of_msg", "message M { map<int32, M> m = 1; int32 mk20012 = 20012; }\n"),
+        "only_repeated_msg.proto": _pkg("only_repeated_msg", "message M { repeated M r = 1; int32 mk20013 = 20013; }\n"),
+        "only_optional_msg.proto": _pkg("only_optional_msg", "message M { optional M o = 1; int32 mk20014 = 20014; }\n"),
+    }
+
     def fixed_cases():
         yield {"fixed": "all_cardinalities_service", "vseeds": [1, 2, 3, 4, 5, 6]}
+        yield {"fixed": "single_construct_packages", "vseeds": [11, 12, 13, 14, 15, 16, 17, 18, 19, 20, 21, 22]}
         yield {"fixed": "probe_field_named_like_annotation_type", "vseeds": [1]}
 
     def fixed_ev(case):
@@ -295,8 +320,8 @@ def targets(ctx):
             for f in fails:
                 f.sig = "probe|field_named_like_annotation_type|" + f.sig
             return Eval(fails, weight=len(VARIANTS), nontrivial_count=len(VARIANTS), labels=["probe"])
-        fails, results = run_variants(SERVICE_PROTO, case["vseeds"])
-        return Eval(fails, weight=len(VARIANTS), nontrivial_count=len(VARIANTS), labels=["fixed_service"])
+        fails, results = run_variants(SINGLE_CONSTRUCT if case["fixed"] == "single_construct_packages" else SERVICE_PROTO, case["vseeds"])
+        return Eval(fails, weight=len(VARIANTS), nontrivial_count=len(VARIANTS), labels=["fixed:" + case["fixed"]])
 
     strat = st.tuples(schema_ast(max_packages=2), st.lists(st.integers(0, 2**20), min_size=3, max_size=3)).map(lambda t: {"ast": t[0], "vseeds": t[1]})
     return [
